@@ -75,6 +75,23 @@ func Witnesses() []*History {
 			},
 		},
 		{
+			// The same situation where the winning batch moves a clean node: removing one of two keys
+			// makes the remaining leaf the root node. The kept tree must forget its in-memory nodes
+			// (fix 3ea505a): otherwise its next commit references the removed old location, which
+			// surfaces after the old version is pruned.
+			Name: "same-root-committed-twice-kept-tree-leaf-becomes-root",
+			Ops: []Op{
+				{Kind: KCommit, Ver: 1, Type: TState, Cand: 0, Parent: ParentPrev, Tree: 1, W: []WOp{put("\x80", "x"), put("ab", "y")}},
+				{Kind: KFinalize, Ver: 1, Final: []int{0}},
+				{Kind: KCommit, Ver: 2, Type: TState, Cand: 0, Parent: ParentPrev, W: []WOp{del("\x80")}},
+				{Kind: KCommit, Ver: 2, Type: TState, Cand: 1, Parent: ParentPrev, Tree: 1, W: []WOp{del("\x80")}},
+				{Kind: KFinalize, Ver: 2, Final: []int{1}},
+				{Kind: KPrune, Ver: 1},
+				{Kind: KCommit, Ver: 3, Type: TState, Cand: 0, Parent: ParentPrev, Tree: 1, W: []WOp{put("\x80", "z")}},
+				{Kind: KFinalize, Ver: 3, Final: []int{0}},
+			},
+		},
+		{
 			// Badger-only shape: the finalized root is a same-version child of candidate 0 and
 			// removes a node that candidate 0 inherited; candidate 0 stays listed but loses the node.
 			Name:       "badger-same-version-ancestor-loses-node",
